@@ -365,3 +365,34 @@ def degenerate_arrangement(a, b):
                 x = (p[0] + u * (q[0] - p[0]), p[1] + u * (q[1] - p[1]))
                 pts.setdefault(x, set()).update((i, j))
     return any(len(v) > 2 for v in pts.values())
+
+
+def fam_share(rng):
+    """operands that share boundary pieces: B is A with some cells toggled / removed / added"""
+    n = rng.randrange(2, 6)
+    mode = rng.choice([0, 1])
+    ca = gen_cells(rng, n, rng.choice([0.4, 0.55, 0.7]), mode)
+    cb = set(ca)
+    allc = [(x, y, k) for x in range(n) for y in range(n) for k in range(4)]
+    for _ in range(rng.randrange(1, 2 * n)):
+        c = rng.choice(allc)
+        grp = [c] if mode == 1 and rng.random() < 0.5 else [(c[0], c[1], k) for k in range(4)]
+        if rng.random() < 0.5:
+            cb.difference_update(grp)
+        else:
+            cb.update(grp)
+    kc = rng.random() < 0.3
+    a = ('M', fpoly(cells_to_polygons(ca, kc)))
+    b = ('M', fpoly(cells_to_polygons(cb, kc)))
+    return a, b, {'family': 'share', 'n': n, 'cells': (sorted(ca), sorted(cb))}
+
+
+def fam_selfop(rng):
+    """A op A: every edge coincident"""
+    f = rng.choice([fam_rect, fam_oct, fam_lat, fam_gp])
+    a, _, meta = f(rng)
+    return a, a, dict(meta, family='selfop')
+
+
+FAMILIES['share'] = fam_share
+FAMILIES['selfop'] = fam_selfop
